@@ -15,6 +15,7 @@ import tempfile
 
 VERIF = os.path.dirname(os.path.dirname(os.path.abspath(__file__)))
 SEEDED = os.path.join(VERIF, "seeded")
+KNOWN = {(k["rule"], k["key"]) for k in json.load(open(os.path.join(VERIF, "known_findings.json")))["findings"] if k.get("status") == "open"}
 
 
 def run_seed(sid, props):
@@ -32,7 +33,8 @@ def run_seed(sid, props):
             line = next((l for l in q.stdout.splitlines() if l.startswith("{")), None)
             data = json.loads(line) if line else {"obligations": [], "error": q.stdout[-200:]}
             if q.returncode == 1:
-                out["violations"][p] = sorted({o["rule"] for o in data["obligations"] if o["verdict"] == "violation"})
+                out["violations"][p] = sorted({o["rule"] for o in data["obligations"] if o["verdict"] == "violation"
+                                               and (o["rule"], o["key"]) not in KNOWN})
             elif q.returncode == 2:
                 out["analysis_error"][p] = (data.get("error") or "").splitlines()[0][:200] if data.get("error") else "exit 2"
             else:
